@@ -361,3 +361,100 @@ def conn_port_dies(rng):
     th = spec["threads"][1]
     th.insert(rng.randrange(len(th) + 1), ["port_dies"])
     return spec
+
+
+# ---------------------------------------------------------------------------------------------- C10 (hostile device output)
+MALFORMED = ["", "@", "@:", "@:=", "@a:=", "@:a=", "=", ":", "@MAIN", "@MAIN:VOL", "@MAIN:=5", "@=:", "\r", "\n", "garbage", "@@MAIN:VOL=1", " @MAIN:VOL=1",
+             "@UNDEFINED ", "@RESTRICTED\n", "@UNDEFINED", "@RESTRICTED", "\x00", "@MAIN:VOL=\x00", "@ MAIN:PWR=On", "@MAIN :PWR=On"]
+UNKNOWN_SU = ["HDRADIO", "XM", "ZONE5", "main", "Main", "ÄÖ", "SYS2", "MAIN ", "A", "ZONE", "SIRIUSXM", "0"]
+UNDEC = ["Auto Down", "Auto Up", "", "abc", "--", "1.5.2", "12a", "0x1F", " ", "None", "1,5", "+-1", "@UNDEFINED", "=", "é", "On ", "on", "-", "9" * 400]
+
+
+def hostile_line(rng, T, present):
+    """one line a device could send that the library has no use for (never a SYS:VERSION / SYS:MODELNAME line: those have protocol roles)"""
+    r = rng.random()
+    if r < 0.22:
+        su = rng.choice(UNKNOWN_SU)
+        fn = rng.choice(["AVAIL", "AVAIL", "PWR", "VOL", "VERSION", "MODELNAME", "INP", "FOO"])
+        return f"@{su}:{fn}={rng.choice(['Ready', 'Not Ready', 'On', '1', '', 'x=y', 'a:b'])}"
+    if r < 0.34:
+        su = rng.choice(present)
+        return f"@{su}:{rng.choice(['FOOBAR', 'avail', 'Pwr', 'VOL2', 'X' * 300, 'ÄÖ', 'AVAILX', 'VERSIONX'])}={rng.choice(['1', 'On', '', 'Ready'])}"
+    if r < 0.62:
+        c = rng.choice([c for c in T["classes"] if c["id"] in present] or T["classes"][:1])
+        f = rng.choice([f for f in c["fns"] if not (c["id"] == "SYS" and f["name"] in ("VERSION", "MODELNAME"))])
+        return f"@{c['id']}:{f['name']}={rng.choice(UNDEC)}"
+    if r < 0.8:
+        return rng.choice(MALFORMED).replace("\r\n", "\r \n")
+    if r < 0.93:
+        b = rng.choice([b"\xff\xfe", b"\xc3", b"\xe2\x82", b"\xf0\x9f\x98", b"@MAIN:VOL=\xff", b"\x80@SYS:PWR=x", b"@\xc3\x28:A=B", b"@MAIN:ZONENAME=\xe9t\xe9"]) + \
+            bytes(rng.randrange(256) for _ in range(rng.randint(0, 12)))
+        return "hex:" + b.replace(b"\r\n", b"\r \n").hex()
+    return f"@{rng.choice(present)}:{rng.choice(['ZONENAME', 'INPNAMEHDMI1', 'FOO'])}=" + "x" * rng.choice([1000, 20000, 100000])
+
+
+def conn_hostile(rng, T):
+    """a plain connection with one registered callback; the device volunteers hostile lines, each batch followed by a harmless sentinel line"""
+    unsol = []
+    t = 0.5
+    k = 0
+    for _ in range(rng.randint(1, 12)):
+        t += rng.choice([0.0, 0.0, 0.001, 0.05, 0.3, 2.0, 29.9])
+        unsol.append([round(t, 3), hostile_line(rng, T, ["MAIN", "SYS", "ZONE2", "TUN"])])
+        if rng.random() < 0.5:
+            k += 1
+            unsol.append([round(t + 0.002, 3), f"@MAIN:ZONENAME=sentinel{k}"])
+    k += 1
+    unsol.append([round(t + 1.0, 3), f"@MAIN:ZONENAME=sentinel{k}"])
+    dev = {"type": "scripted", "latency": rng.choice([0.02, 0.06]), "unsolicited": unsol}
+    if rng.random() < 0.4:
+        dev["chunk"] = rng.randrange(1, 10 ** 6)
+    t0 = []
+    for i in range(rng.randint(0, 4)):
+        t0.append(["sleep", rng.choice([0.2, 1.0, 3.0])])
+        t0.append(["put", "MAIN", "VOL", f"-{20 + i}.0"])
+    t0 += [["sleep", max(1.0, t + 3.0)], ["connected"]]
+    return {"kind": "conn", "device": dev, "log_size": rng.choice([0, 0, 5]), "threads": [t0], "pre_register": [1], "sentinels": k, "final_wait": 0}
+
+
+def api_init_hostile(rng, T):
+    """YncaApi.initialize() against a healthy small receiver that volunteers hostile lines during and after the start-up dialogue"""
+    optional = [s for s in T["consts"]["subunits"] if s != "SYS"]
+    present = sorted(rng.sample(optional, rng.choice([0, 1, 2, 3])))
+    avail = {s: rng.choice(["Ready", "Not Ready"]) for s in present}
+    table = device_table(rng, T, ["SYS"] + present, p_answer=rng.choice([0.3, 0.8]))
+    sys_c = next(c for c in T["classes"] if c["id"] == "SYS")
+    sf = next(f for f in sys_c["fns"] if f["get"] and f["conv"]["k"] == "str" and f["name"] not in ("MODELNAME", "VERSION"))
+    unsol = []
+    for _ in range(rng.randint(1, 8)):
+        # the detection stage lasts ~2.6 s (25 AVAIL queries at the command spacing), subunit initialisation up to ~10 s more
+        unsol.append([round(rng.choice([rng.uniform(0.0, 2.6), rng.uniform(0.0, 14.0), rng.uniform(14.0, 50.0)]), 3), hostile_line(rng, T, ["SYS"] + present)])
+    unsol.append([60.0, f"@SYS:{sf['name']}=sentinel"])
+    dev = {"type": "scripted", "latency": rng.choice([0.0, 0.02, 0.06, 0.15]), "avail": avail, "table": table, "unsolicited": sorted(unsol, key=lambda x: x[0]), "echo_put": True}
+    if rng.random() < 0.3:
+        dev["chunk"] = rng.randrange(1, 10 ** 6)
+    return {"kind": "api_init", "device": dev, "after": [["sleep", 70.0], ["dump"], ["close"]], "final_wait": 6, "present": present, "healthy": True,
+            "sentinel": [sf["name"], "s:sentinel"], "known_ids": [c["id"] for c in T["classes"]],
+            "readable": {c["id"]: [f["name"] for f in c["fns"] if f["get"]] for c in T["classes"]}}
+
+
+def conn_reg_race(rng):
+    """C09 flavour: several threads (un)register different message callbacks at the same instant, with opcode-level preemption inside the
+    registration functions (a read-modify-write of the collection loses an update only then); afterwards the device volunteers lines that
+    every callback registered throughout must receive"""
+    pre = [1, 2, 3]
+    n = rng.randint(2, 4)
+    t_ops = rng.choice([0.3, 0.3, 1.1])
+    threads = []
+    for i in range(n):
+        ops = [["sleep", t_ops]]
+        for j in range(rng.randint(1, 2)):
+            ops.append(rng.choice([["reg", 10 + 2 * i + j], ["reg", 10 + 2 * i + j], ["unreg", rng.choice(pre)]]))
+        threads.append(ops)
+    threads[0] += [["join"], ["sleep", 3.0]]
+    unsol = [[t_ops + 1.0, "@MAIN:VOL=-1.0"], [t_ops + 1.5, "@MAIN:VOL=-2.0"]]
+    if rng.random() < 0.5:
+        unsol.insert(0, [t_ops, "@MAIN:VOL=-0.5"])          # a delivery is in progress while the registrations race
+    dev = {"type": "scripted", "latency": 0.02, "unsolicited": unsol}
+    return {"kind": "conn", "device": dev, "log_size": 0, "threads": threads, "pre_register": pre, "callbacks": {},
+            "hot": "register_message_callback|_call_registered_message_callbacks", "hot_budget": rng.choice([6, 12, 24])}
